@@ -115,7 +115,9 @@ Fixpoint perm_agrees {A B} (f : A -> B -> bool) (l1 : list A) (l2 : list B) : bo
   | a :: r => match remove1_agrees f a l2 with Some l2' => perm_agrees f r l2' | None => false end
   end.
 
-Definition is_list_schema (s : sch) : bool := match s with SPrim _ => true | _ => false end.
+(* roots whose Parse / Validate return a ZogIssueList: primitives, CustomFunc, and Preprocess (whatever it wraps:
+   PreprocessSchema.Parse / Validate collect into an ErrsList) *)
+Definition is_list_schema (s : sch) : bool := match s with SPrim _ | SCustom _ _ | SPre _ _ => true | _ => false end.
 
 (** group the model's issues by key, in order (the ZogIssueMap without "$first") *)
 Definition grouped (is : list issue) : imap :=
